@@ -25,6 +25,7 @@ def run_case(case):
     ini, tgt = dict(case['ini']), dict(case['tgt'])
     ini.setdefault('sec', False)
     tgt.setdefault('sec', False)
+    nad = ini.pop('nad', None)
     s, ctx, net = stack.run_pair(ini, tgt, horizon=20.0)
     seen = dict(ini=[], tgt=[])
 
@@ -117,12 +118,98 @@ def run_case(case):
         ctx['stop'] = True
 
     ctx['after_ini'], ctx['after_tgt'] = after_ini, after_tgt
-    s.run()
+    stack.NAD[0] = nad
+    try:
+        s.run()
+    finally:
+        stack.NAD[0] = None
     bad, outcome = judge(case, s, ctx, net, seen)
     for miu, d, size, name in agg['bad'][:1]:
         bad.append(('traffic|llc-frame-exceeds-miu|%s' % name,
                     dict(send_miu=miu, offset_from_exact_fit=d, size=size)))
+    if not isinstance(outcome, tuple):
+        outcome = (outcome,)
     return bad, outcome + (agg['agf'] > 0,)
+
+
+def run_mute_case(case):
+    """The Target's data responses are lost from some point on while it still
+    answers attention requests: the Initiator's exchange must end within the
+    link timeout the Target announced (plus one attention round), whatever
+    recovery it attempts - "all later traffic stays within those limits"."""
+    import nfc.llcp.pdu as pdu
+    import nfc.clf
+    ini, tgt = dict(case['ini']), dict(case['tgt'])
+    ini.setdefault('sec', False)
+    tgt.setdefault('sec', False)
+    state = dict(mute=False, dropped=0)
+
+    def fate(net, src, dst, data):
+        if not state['mute'] or src != stack.PORT:
+            return data
+        parts = data.split()
+        if len(parts) != 2:
+            return data
+        f = bytes.fromhex(parts[1].decode())
+        body = f[1:] if parts[0] == b'106A' else f
+        if bytes(body[1:3]) == b'\xd5\x07' and body[3] & 0xE0 == 0x00:
+            state['dropped'] += 1
+            return None                  # an information PDU response: lost
+        return data
+    s, ctx, net = stack.run_pair(ini, tgt, horizon=60.0, fate=fate)
+    out = {}
+
+    def after_ini(clf, ctx):
+        llc = ctx['llc']['ini']
+        for k in range(2):
+            llc.exchange(pdu.Symmetry(), 1.0)
+        state['mute'] = True
+        t0 = s.now
+        try:
+            # (the receive timeout of the Initiator run loop)
+            r = llc.exchange(pdu.Symmetry(),
+                             1E-3 * (llc.cfg['recv-lto'] + 10))
+            out['res'] = ('ret', None if r is None else r.name)
+        except nfc.clf.CommunicationError as e:
+            out['res'] = ('err', type(e).__name__)
+        out['elapsed'] = s.now - t0
+        out['lto'] = llc.cfg['recv-lto'] / 1000.0
+        out['rwt'] = llc.mac.rwt
+        ctx['stop'] = True
+
+    def after_tgt(clf, ctx):
+        llc = ctx['llc']['tgt']
+        p = llc.exchange(None, 2.0)
+        try:
+            while p is not None and not ctx['stop']:
+                p = llc.exchange(pdu.Symmetry(), 2.0)
+        except nfc.clf.CommunicationError:
+            pass
+        ctx['stop'] = True
+    ctx['after_ini'], ctx['after_tgt'] = after_ini, after_tgt
+    s.run()
+    bad = []
+    for name in ('ini', 'tgt'):
+        if name in ctx['error']:
+            e = ctx['error'][name]
+            bad.append(('mute|raises|%s|%s' % (name, sig_exc(e)),
+                        dict(error=repr(e))))
+    if s.verdict != 'finished':
+        bad.append(('mute|stuck|%s' % s.verdict, dict(stuck=s.stuck())))
+    if not bad and 'elapsed' in out:
+        limit = out['lto'] + 0.010 + 3 * out['rwt'] + 0.05
+        if out['res'][0] == 'ret' and out['res'][1] is not None:
+            bad.append(('mute|exchange-returned-a-pdu-that-was-never-received',
+                        dict(out)))
+        elif out['elapsed'] > limit:
+            bad.append(('mute|initiator-waits-beyond-link-timeout',
+                        dict(elapsed=round(out['elapsed'], 4),
+                             announced_lto=out['lto'], rwt=round(out['rwt'], 4),
+                             limit=round(limit, 4), dropped=state['dropped'])))
+    elif not bad:
+        bad.append(('mute|no-activation', dict(result=repr(ctx['result']))))
+    return bad, ('mute', out.get('res'), state['dropped'] > 0)
+
 
 
 def judge(case, s, ctx, net, seen):
@@ -163,8 +250,10 @@ def judge(case, s, ctx, net, seen):
     rwt = clamp(tgt.get('rwt', 8), 0, 14)
     brs = clamp(ini.get('brs', 2), 0, 2)
     mi, mt = A.mac, B.mac
-    exp.append(('ini.dep.miu', mi.miu, LR[lrt] - 3))
-    exp.append(('tgt.dep.miu', mt.miu, LR[lri] - 3))
+    if ini.get('nad') is None:
+        exp.append(('ini.dep.miu', mi.miu, LR[lrt] - 3))
+        exp.append(('tgt.dep.miu', mt.miu, LR[lri] - 3))
+    # (with a node address in use the frame size oracle below decides)
     exp.append(('ini.dep.rwt', round(mi.rwt, 9),
                 round(4096 / 13.56E6 * 2 ** rwt, 9)))
     for what, got, want in exp:
@@ -229,7 +318,8 @@ def dep_start(frames):
 def work(chunk):
     run = Run(PROP)
     for case in chunk:
-        bad, outcome = run_case(case)
+        bad, outcome = run_mute_case(case) if case.get('mute') \
+            else run_case(case)
         key = repr(case)
         run.outcome(outcome)
         if not bad:
@@ -288,6 +378,19 @@ def cases(tier):
             ini=dict(role=None, brs=brs, lri=lri, lrt=(lrt + 1) % 4, rwt=9,
                      miu=1024, agf=True),
             tgt=dict(lrt=lrt, rwt=8, miu=2175, agf=True)))
+    # the Initiator uses a node address (NAD): one octet more in its frames
+    # (and in the Target's, if it echoes the NAD) - the frames on the air
+    # stay within the announced length reduction values
+    for brs, lri, lrt in itertools.product((0, 2), range(4), range(4)):
+        out.append(dict(ini=dict(nad=1, brs=brs, lri=lri, miu=2175, agf=True),
+                        tgt=dict(lrt=lrt, rwt=8, miu=2175, agf=True)))
+    # data responses lost for good while attention is still answered: the
+    # Initiator gives up within the link timeout the Target announced
+    for rwt in (4, 8, 12):
+        for lto in (100, 500, 1500):
+            for brs in (0, 2):
+                out.append(dict(mute=True, ini=dict(brs=brs, miu=248, lto=500),
+                                tgt=dict(rwt=rwt, miu=248, lto=lto)))
     # out-of-range option values are clamped
     for brs, lri, lrt, rwt in ((3, -1, 4, 15), (-1, 4, -1, -1), (5, 3, 3, 20)):
         out.append(dict(ini=dict(brs=brs, lri=lri), tgt=dict(lrt=lrt, rwt=rwt)))
@@ -308,7 +411,10 @@ def main(tier='quick', seed=0, part=None):
         "full grid brs 0..2 x lri 0..3 x lrt 0..3 x rwt %s x miu %s per side x "
         "lto %s per side (agf, lsc derived so that all values occur), plus "
         "out-of-range option values, all lsc pairs, and brs x lri x lrt with no "
-        "role given on the side that ends up as Initiator; one whole-stack "
+        "role given on the side that ends up as Initiator, and rwt x lto x brs "
+        "with the Target's data responses lost for good while attention is "
+        "still answered (the Initiator gives up within the announced link "
+        "timeout + 3 RWT); one whole-stack "
         "activation + 3 maximal UI exchanges per point; distinct = distinct "
         "option pair; all are non-trivial (a link is activated)" % (
             'all 15' if tier == 'thorough' else '{0,8,14}',
@@ -323,6 +429,6 @@ def main(tier='quick', seed=0, part=None):
 
 def replay(doc):
     case = doc['detail']['case']
-    bad, outcome = run_case(case)
+    bad, outcome = run_mute_case(case) if case.get('mute') else run_case(case)
     print('replay:', [b[0] for b in bad], outcome)
     return 1 if bad else 0
